@@ -291,6 +291,23 @@ PROPS["C12"] = dict(
     thorough=dict(shards=16, timeout=3000),
 )
 
+PROPS["C13"] = dict(
+    pkg="c13", level="exploration", design_ref="DESIGN.md section 3, C13",
+    technique="rapid-generated (transport, limit, size relative to the limit, call or raw bytes, length declaration) requests against a service with a counting IO plugin and a counting published function; library client for truthful declarations, hand-made HTTP requests, socket frames, datagrams and websocket messages for absent/understated/overstated ones",
+    level_text=("MaxRequestLength is set per case to a generated limit (boundary-biased, 0 to 1 MiB; below the datagram size on UDP) and a request of limit-1, limit, limit+1, limit+small or "
+                "far above is sent: (a) through the library client on mock, tcp, unix, udp, websocket (both servers), net/http and fasthttp (both client transports), worker pool on/off: "
+                "over the limit the IO plugin and the function must see nothing and the caller must get a request-too-large error, then the next call must succeed; at or below the "
+                "limit the request must be processed exactly once. (b) hand-made HTTP POST/GET with truthful, chunked (no length) and understated Content-Length on the four HTTP-capable "
+                "servers. (c) hand-made socket frames, datagrams and websocket messages with truthful, understated and overstated lengths. In every case nothing longer than the limit "
+                "may ever reach the IO plugin."),
+    level_note="The limit is changed on the live service between cases (the handlers read it per request); cases on one endpoint are serialised.",
+    rule=("rapid-drawn cases; all non-trivial (a limit is set and the size is chosen relative to it). Classes: transport x declaration x over/within, exact edges (size = limit, limit+1), pool, "
+          "call versus raw bytes, HTTP method. Distinct by case text."),
+    assumptions=["loopback networking and unix sockets are available"],
+    quick=dict(shards=4, timeout=900),
+    thorough=dict(shards=16, timeout=3000),
+)
+
 # properties not claimed yet (kept current as checks land)
 _ALL = ["C%02d" % i for i in range(1, 21)]
 NOT_APPLICABLE = [dict(property_id=p, reason="check not built yet in this revision (planned in DESIGN.md section 3); not a limit of the technique")
